@@ -177,6 +177,14 @@ pub fn programs() -> Vec<Program> {
         v.push(p);
     }
     {
+        // the sweeper releases another key's weight while the worker updates this key's weight
+        let mut p = base("{clock;tick} sweeping b||upsert(a,weight)", 10);
+        p.init = vec![put(1, 2), put_ttl(2, 3, 1_000)];
+        p.threads = vec![vec![Op::Advance { ms: 3_000 }, Op::Tick], vec![ups(1, Some(4), None)]];
+        p.post = vec![get(1)];
+        v.push(p);
+    }
+    {
         let mut p = base("upsert(k)||upsert(k)-weights", 10);
         p.init = vec![put(1, 2)];
         p.threads = vec![vec![ups(1, Some(3), None)], vec![ups(1, Some(5), None)]];
